@@ -218,4 +218,1156 @@ theorem writeEncText_not_allZero (c : Ctx) (enc : Nat) (hc : ctxEnc c = .ok enc)
       obtain ⟨y, hy⟩ := hmem
       exact allZero_false_of_mem _ y (by simp [utf8EncodeRaw, hy]) (hz y hy)
 
+/-! ## the EncodedTextSpec family -/
+
+/-- valid value of a member of the EncodedTextSpec family: valid text; a time stamp must be
+a fixed point of mutagen's own parse/format normalisation (`ID3TimeStamp(text).text`) -/
+def TextKindOK (enc : Nat) (tk : TextKind) (t : Text) : Prop :=
+  TextOK enc t ∧ (tk = .timeStamp → tsNormalize (tsWire t) = .ok t)
+
+theorem tsWire_ok (enc : Nat) (t : Text) (h : TextOK enc t) : TextOK enc (tsWire t) := by
+  intro y hy
+  simp only [tsWire, List.mem_map] at hy
+  obtain ⟨x, hx, rfl⟩ := hy
+  have := h x hx
+  by_cases h32 : x = 32
+  · subst h32
+    by_cases he : enc = 0 <;> simp [he, isScalar]
+  · simpa [h32] using this
+
+theorem tsWire_ne_nil (t : Text) (h : t ≠ []) : tsWire t ≠ [] := by
+  cases t with
+  | nil => exact absurd rfl h
+  | cons x r => simp [tsWire]
+
+theorem readTextKind_write (h : Hdr) (c : Ctx) (enc : Nat) (hc : ctxEnc c = .ok enc) (tk : TextKind)
+    (t : Text) (ht : TextKindOK enc tk t) (rest : Bytes) (htail : TailOK h rest) :
+    ∃ b, writeTextKind c tk (.text t) = .ok b ∧ readTextKind h c tk (b ++ rest) = .ok (.text t, rest) ∧
+      b ≠ [] ∧ (t ≠ [] → ∀ r, allZero (b ++ r) = false) := by
+  by_cases hts : tk = .timeStamp
+  · subst hts
+    have hw := tsWire_ok enc t ht.1
+    obtain ⟨b, hb, hr, hne⟩ := readEncText_write h c enc hc (tsWire t) hw rest htail
+    refine ⟨b, by simp [writeTextKind, hb], by simp [readTextKind, hr, ht.2 rfl], hne, ?_⟩
+    intro hn r
+    exact writeEncText_not_allZero c enc hc (tsWire t) hw (tsWire_ne_nil t hn) b hb r
+  · obtain ⟨b, hb, hr, hne⟩ := readEncText_write h c enc hc t ht.1 rest htail
+    refine ⟨b, ?_, ?_, hne, fun hn r => writeEncText_not_allZero c enc hc t ht.1 hn b hb r⟩
+    · cases tk <;> simp_all [writeTextKind]
+    · cases tk <;> simp_all [readTextKind]
+
+/-! ## MultiSpec -/
+
+/-- one record of a MultiSpec: one valid text per member spec; under a v2.2/v2.3 header the
+texts must be non-empty (an empty one is indistinguishable from padding and is dropped) -/
+def RecordOK (h : Hdr) (enc : Nat) : List TextKind → List Val → Prop
+  | [], [] => True
+  | k :: ks, .text t :: vs => TextKindOK enc k t ∧ (h.version < 4 → t ≠ []) ∧ RecordOK h enc ks vs
+  | _, _ => False
+
+theorem readRecord_write (h : Hdr) (c : Ctx) (enc : Nat) (hc : ctxEnc c = .ok enc) (elems : List TextKind)
+    (record : List Val) (hrec : RecordOK h enc elems record) (rest : Bytes) (htail : TailOK h rest) :
+    ∃ b, writeRecord c elems record = .ok b ∧ readRecord h c elems (b ++ rest) = .ok (record, rest) ∧
+      (elems ≠ [] → b ≠ []) ∧ (h.version < 4 → elems ≠ [] → ∀ r, allZero (b ++ r) = false) := by
+  induction elems generalizing record with
+  | nil =>
+    cases record with
+    | nil => exact ⟨[], by simp [writeRecord], by simp [readRecord], by simp, by simp⟩
+    | cons v vs => simp [RecordOK] at hrec
+  | cons k ks ih =>
+    cases record with
+    | nil => simp [RecordOK] at hrec
+    | cons v vs =>
+      cases v with
+      | text t =>
+        obtain ⟨hk, hne23, hrest⟩ := hrec
+        obtain ⟨bs, hbs, hrs, hnes, hz⟩ := ih vs hrest
+        have htail' : TailOK h (bs ++ rest) := by
+          intro hv
+          cases ks with
+          | nil =>
+            cases vs with
+            | nil =>
+              simp [writeRecord] at hbs
+              subst hbs
+              simpa using htail hv
+            | cons _ _ => simp [RecordOK] at hrest
+          | cons k' ks' => exact Or.inr (hz hv (by simp) rest)
+        obtain ⟨b, hb, hr, hne, hnz⟩ := readTextKind_write h c enc hc k t hk (bs ++ rest) htail'
+        refine ⟨b ++ bs, by simp [writeRecord, hb, hbs], ?_, by simp [hne], ?_⟩
+        · simp only [readRecord, List.append_assoc, hr, hrs]
+        · intro hv _ r
+          rw [List.append_assoc]
+          exact hnz (hne23 hv) (bs ++ r)
+      | _ => simp [RecordOK] at hrec
+
+/-- writing `recordVal elems record` the way `MultiSpec.write` does is `writeRecord` -/
+theorem writeMulti_one (h : Hdr) (c : Ctx) (enc : Nat) (elems : List TextKind) (hne : elems ≠ [])
+    (record : List Val) (hrec : RecordOK h enc elems record) (vs : List Val) (a b : Bytes)
+    (ha : writeRecord c elems record = .ok a) (hb : writeMulti c elems vs = .ok b) :
+    writeMulti c elems (recordVal elems record :: vs) = .ok (a ++ b) := by
+  cases elems with
+  | nil => exact absurd rfl hne
+  | cons k ks =>
+    cases ks with
+    | nil =>
+      cases record with
+      | nil => simp [RecordOK] at hrec
+      | cons v r =>
+        cases r with
+        | nil =>
+          cases v with
+          | text t =>
+            simp only [writeRecord] at ha
+            cases hw : writeTextKind c k (.text t) with
+            | error e => simp [hw] at ha
+            | ok w =>
+              simp [hw] at ha
+              subst ha
+              simp [recordVal, writeMulti, hw, hb]
+          | _ => simp [RecordOK] at hrec
+        | cons _ _ =>
+          cases v <;> simp [RecordOK] at hrec
+    | cons k' ks' =>
+      cases record with
+      | nil => simp [RecordOK] at hrec
+      | cons v r =>
+        cases r with
+        | nil => cases v <;> simp [RecordOK] at hrec
+        | cons v' r' => simp [recordVal, writeMulti, ha, hb]
+
+/-- MultiSpec (any non-empty list of member text specs): valid records are read back; the
+spec consumes everything, so nothing may follow -/
+theorem readMulti_write (h : Hdr) (c : Ctx) (enc : Nat) (hc : ctxEnc c = .ok enc) (elems : List TextKind)
+    (hne : elems ≠ []) (recs : List (List Val)) (hrecs : ∀ r ∈ recs, RecordOK h enc elems r) :
+    ∃ b, writeMulti c elems (recs.map (recordVal elems)) = .ok b ∧
+      readMulti h c elems b = .ok (recs.map (recordVal elems)) ∧ (recs ≠ [] → b ≠ []) ∧
+      (h.version < 4 → recs ≠ [] → ∀ r, allZero (b ++ r) = false) := by
+  induction recs with
+  | nil =>
+    refine ⟨[], by simp [writeMulti], ?_, by simp, by simp⟩
+    rw [readMulti]; simp
+  | cons rec rs ih =>
+    obtain ⟨bs, hbs, hrs, hnes, hz⟩ := ih (fun r hr => hrecs r (by simp [hr]))
+    have htail : TailOK h bs := by
+      intro hv
+      cases rs with
+      | nil => simp [writeMulti] at hbs; subst hbs; exact Or.inl rfl
+      | cons _ _ => exact Or.inr (by simpa using hz hv (by simp) [])
+    obtain ⟨b, hb, hr, hneb, hzb⟩ := readRecord_write h c enc hc elems rec (hrecs rec (by simp)) bs htail
+    refine ⟨b ++ bs, ?_, ?_, by simp [hneb hne], ?_⟩
+    · simp only [List.map_cons]
+      exact writeMulti_one h c enc elems hne rec (hrecs rec (by simp)) _ b bs hb hbs
+    · rw [readMulti]
+      have h1 : ¬ (b ++ bs = []) := by simp [hneb hne]
+      have h2 : bs.length < (b ++ bs).length := by
+        have : b.length ≠ 0 := by simpa using hneb hne
+        simp; omega
+      simp only [h1, ↓reduceIte, hr, h2, ↓reduceDIte, hrs, List.map_cons]
+    · intro hv _ r
+      rw [List.append_assoc]
+      exact hzb hv hne (bs ++ r)
+
+/-! ## Latin1TextSpec / Latin1TextListSpec -/
+
+def Latin1OK (t : Text) : Prop := ∀ x ∈ t, x < 256 ∧ x ≠ 0
+
+theorem readLatin1_write (t : Text) (ht : Latin1OK t) (rest : Bytes) :
+    ∃ b, writeLatin1 (.text t) = .ok b ∧ readLatin1 (b ++ rest) = (t, rest) ∧ b ≠ [] := by
+  have hl : ∀ x ∈ t, x < 256 := fun x hx => (ht x hx).1
+  refine ⟨t.map b8 ++ [0], by simp [writeLatin1, latin1Encode_ok t hl], ?_, by simp⟩
+  have := splitNul_append (t.map b8) rest (map_b8_ne_zero t ht)
+  simp [readLatin1, this, latin1Decode_map t hl]
+
+theorem readLatin1N_write (ts : List Text) (hts : ∀ t ∈ ts, Latin1OK t) (rest : Bytes) :
+    ∃ b, writeLatin1s (ts.map Val.text) = .ok b ∧
+      readLatin1N ts.length (b ++ rest) = (ts.map Val.text, rest) := by
+  induction ts with
+  | nil => exact ⟨[], by simp [writeLatin1s], by simp [readLatin1N]⟩
+  | cons t r ih =>
+    obtain ⟨bs, hbs, hrs⟩ := ih (fun x hx => hts x (by simp [hx]))
+    obtain ⟨b, hb, hr, _⟩ := readLatin1_write t (hts t (by simp)) (bs ++ rest)
+    refine ⟨b ++ bs, by simp [writeLatin1s, hb, hbs], ?_⟩
+    simp only [List.length_cons, readLatin1N, List.append_assoc, hr, hrs, List.map_cons]
+
+/-! ## SynchronizedTextSpec -/
+
+/-- `(text, time)` entries: valid text, time a 32-bit unsigned integer -/
+def SyncOK (enc : Nat) (es : List (Text × Nat)) : Prop := ∀ e ∈ es, TextOK enc e.1 ∧ e.2 < 256 ^ 4
+
+def syncVal (e : Text × Nat) : Val := .list [.text e.1, .int (e.2 : Int)]
+
+theorem take_app {α} (a b : List α) (n : Nat) (h : a.length = n) : (a ++ b).take n = a := by
+  subst h; simp
+
+theorem drop_app {α} (a b : List α) (n : Nat) (h : a.length = n) : (a ++ b).drop n = b := by
+  subst h; simp
+
+theorem writeSyncText_cons (c : Ctx) (t : Text) (n : Nat) (vs : List Val) (a bs : Bytes) (hn : n < 256 ^ 4)
+    (ha : writeEncText c t = .ok a) (hbs : writeSyncText c vs = .ok bs) :
+    writeSyncText c (.list [.text t, .int (n : Int)] :: vs) = .ok (a ++ toBE 4 n ++ bs) := by
+  have hp := packU_ok 4 n hn
+  rw [writeSyncText]
+  simp only [textIntPair]
+  rw [ha, hp, hbs]
+
+theorem readSyncText_write (c : Ctx) (enc : Nat) (hc : ctxEnc c = .ok enc) (es : List (Text × Nat))
+    (hes : SyncOK enc es) :
+    ∃ b, writeSyncText c (es.map syncVal) = .ok b ∧ readSyncText enc b = .ok (es.map syncVal) ∧
+      (es ≠ [] → b ≠ []) := by
+  induction es with
+  | nil =>
+    refine ⟨[], by simp [writeSyncText], ?_, by simp⟩
+    rw [readSyncText]; simp
+  | cons e r ih =>
+    obtain ⟨bs, hbs, hrs, _⟩ := ih (fun x hx => hes x (by simp [hx]))
+    obtain ⟨ht, htime⟩ := hes e (by simp)
+    obtain ⟨b, tm, hb, htm, hdec, hne⟩ :=
+      decodeTerminated_encode enc (ctxEnc_le c enc hc) e.1 ht true (toBE 4 e.2 ++ bs)
+    refine ⟨b ++ tm ++ toBE 4 e.2 ++ bs, ?_, ?_, by simp [hne]⟩
+    · simp only [List.map_cons]
+      rw [show syncVal e = .list [.text e.1, .int (e.2 : Int)] from rfl]
+      exact writeSyncText_cons c e.1 e.2 _ (b ++ tm) bs htime (by simp [writeEncText, hc, hb, htm]) hbs
+    · rw [readSyncText]
+      have h1 : ¬ (b ++ tm ++ toBE 4 e.2 ++ bs = []) := by simp [hne]
+      have hdec' : decodeTerminated enc true (b ++ tm ++ toBE 4 e.2 ++ bs) = .ok (e.1, toBE 4 e.2 ++ bs) := by
+        simpa [List.append_assoc] using hdec
+      have h2 : ¬ ((toBE 4 e.2 ++ bs).length < 4) := by simp
+      have h3 : (toBE 4 e.2 ++ bs).drop 4 = bs := drop_app _ _ 4 (by simp)
+      have h4 : (toBE 4 e.2 ++ bs).take 4 = toBE 4 e.2 := take_app _ _ 4 (by simp)
+      have h5 : bs.length < (b ++ tm ++ toBE 4 e.2 ++ bs).length := by simp; omega
+      simp only [h1, ↓reduceIte, hdec', h2, h3, h4, h5, ↓reduceDIte, hrs, ofBE_toBE 4 e.2 htime,
+        List.map_cons, syncVal]
+
+/-! ## KeyEventSpec -/
+
+def KeyOK (es : List (Int × Nat)) : Prop := ∀ e ∈ es, -128 ≤ e.1 ∧ e.1 < 128 ∧ e.2 < 256 ^ 4
+
+def keyVal (e : Int × Nat) : Val := .list [.int e.1, .int (e.2 : Int)]
+
+theorem toBE4_cases (n : Nat) : ∃ a b c d, toBE 4 n = [a, b, c, d] := by
+  have h : (toBE 4 n).length = 4 := length_toBE 4 n
+  match hm : toBE 4 n, h with
+  | [a, b, c, d], _ => exact ⟨a, b, c, d, rfl⟩
+
+theorem toSignedBE1_cases (i : Int) : ∃ a, toSignedBE 1 i = [a] := by
+  have h : (toSignedBE 1 i).length = 1 := length_toSignedBE 1 i
+  match hm : toSignedBE 1 i, h with
+  | [a], _ => exact ⟨a, rfl⟩
+
+theorem toSignedBE2_cases (i : Int) : ∃ a b, toSignedBE 2 i = [a, b] := by
+  have h : (toSignedBE 2 i).length = 2 := length_toSignedBE 2 i
+  match hm : toSignedBE 2 i, h with
+  | [a, b], _ => exact ⟨a, b, rfl⟩
+
+theorem toBE2_cases (n : Nat) : ∃ a b, toBE 2 n = [a, b] := by
+  have h : (toBE 2 n).length = 2 := length_toBE 2 n
+  match hm : toBE 2 n, h with
+  | [a, b], _ => exact ⟨a, b, rfl⟩
+
+theorem writeKeyEvents_cons (ty : Int) (n : Nat) (vs : List Val) (bs : Bytes) (hn : n < 256 ^ 4)
+    (h1 : -128 ≤ ty) (h2 : ty < 128) (hbs : writeKeyEvents vs = .ok bs) :
+    writeKeyEvents (.list [.int ty, .int (n : Int)] :: vs) = .ok (toSignedBE 1 ty ++ toBE 4 n ++ bs) := by
+  have p1 := packS_ok 1 ty (by simpa using h1) (by simpa using h2)
+  have p2 := packU_ok 4 n hn
+  rw [writeKeyEvents]
+  simp only [intIntPair]
+  rw [p1, p2, hbs]
+
+theorem readKeyEvents_write (es : List (Int × Nat)) (hes : KeyOK es) :
+    ∃ b, writeKeyEvents (es.map keyVal) = .ok b ∧ readKeyEvents b = (es.map keyVal, []) ∧
+      (es ≠ [] → b ≠ []) := by
+  induction es with
+  | nil => exact ⟨[], by simp [writeKeyEvents], by simp [readKeyEvents], by simp⟩
+  | cons e r ih =>
+    obtain ⟨bs, hbs, hrs, _⟩ := ih (fun x hx => hes x (by simp [hx]))
+    obtain ⟨h1, h2, h3⟩ := hes e (by simp)
+    obtain ⟨a, ha⟩ := toSignedBE1_cases e.1
+    obtain ⟨b, c, d, f, hb⟩ := toBE4_cases e.2
+    have hs : ofSignedBE [a] = e.1 := by
+      rw [← ha]; exact ofSignedBE_toSignedBE 1 (by decide) e.1 (by simpa using h1) (by simpa using h2)
+    have hu : ofBE [b, c, d, f] = e.2 := by rw [← hb]; exact ofBE_toBE 4 e.2 h3
+    refine ⟨a :: b :: c :: d :: f :: bs, ?_, ?_, by simp⟩
+    · simp only [List.map_cons]
+      rw [show keyVal e = .list [.int e.1, .int (e.2 : Int)] from rfl]
+      rw [writeKeyEvents_cons e.1 e.2 _ bs h3 h1 h2 hbs, ha, hb]
+      simp
+    · simp only [readKeyEvents, hrs, hs, hu, List.map_cons]
+      rfl
+
+/-! ## VolumeAdjustmentSpec / VolumePeakSpec (wire integers) -/
+
+theorem readVolAdj_write (n : Int) (h1 : -32768 ≤ n) (h2 : n ≤ 32767) (rest : Bytes) :
+    ∃ b, writeVolAdj (.int n) = .ok b ∧ readVolAdj (b ++ rest) = .ok (.int n, rest) ∧ b ≠ [] := by
+  obtain ⟨a, b, hab⟩ := toSignedBE2_cases n
+  have hs : ofSignedBE [a, b] = n := by
+    rw [← hab]; exact ofSignedBE_toSignedBE 2 (by decide) n (by simp; omega) (by simp; omega)
+  refine ⟨[a, b], by simp [writeVolAdj, h1, h2, hab], ?_, by simp⟩
+  simp [readVolAdj, hs]
+
+/-- the peak comes back as the numerator `n * 2^16` of a fraction over `2^31 - 1`
+(written: `n / 2^15`) -/
+theorem readVolPeak_write (n : Nat) (h : n ≤ 65535) (rest : Bytes) :
+    ∃ b, writeVolPeak (.int n) = .ok b ∧ readVolPeak (b ++ rest) = .ok (.int ((n * 65536 : Nat) : Int), rest) ∧
+      b ≠ [] := by
+  obtain ⟨a, b, hab⟩ := toBE2_cases n
+  have hu : ofBE [a, b] = n := by rw [← hab]; exact ofBE_toBE 2 n (by simp; omega)
+  have h1 : (0 : Int) ≤ (n : Int) := by omega
+  have h2 : (n : Int) ≤ 65535 := by omega
+  refine ⟨[0x10, a, b], by simp [writeVolPeak, h1, h2, hab], ?_, by simp⟩
+  simp [readVolPeak, hu]
+
+/-! ## StringSpec / FrameIDSpec -/
+
+theorem readString_write (n : Nat) (t : Text) (hlen : t.length = n) (ht : ∀ x ∈ t, x < 128) (rest : Bytes) :
+    ∃ b, writeString n (.text t) = .ok b ∧ readString n (b ++ rest) = .ok (.text t, rest) ∧ (0 < n → b ≠ []) := by
+  have hall : t.all (fun c => decide (c < 128)) = true := by simpa [List.all_eq_true] using ht
+  have hl : ∀ x ∈ t, x < 256 := fun x hx => by have := ht x hx; omega
+  have htake : (t.map b8 ++ zeros n).take n = t.map b8 := take_app _ _ n (by simp [hlen])
+  refine ⟨t.map b8, by simp [writeString, hall, htake], ?_, ?_⟩
+  · have h1 : (t.map b8 ++ rest).take n = t.map b8 := take_app _ _ n (by simp [hlen])
+    have h2 : (t.map b8 ++ rest).drop n = rest := drop_app _ _ n (by simp [hlen])
+    have h3 : (t.map b8).all (fun x => decide (x.toNat < 128)) = true := by
+      simp only [List.all_eq_true, List.mem_map, decide_eq_true_eq]
+      rintro y ⟨x, hx, rfl⟩
+      rw [toNat_b8 x (hl x hx)]; exact ht x hx
+    simp [readString, h1, h2, h3, map_toNat_b8 t hl]
+  · intro hn
+    cases t with
+    | nil => simp at hlen; omega
+    | cons _ _ => simp
+
+/-! ## SizedIntegerSpec / IntegerSpec -/
+
+theorem readSized_write (n v : Nat) (h : v < 256 ^ n) (rest : Bytes) :
+    ∃ b, bpToStr (v : Int) 8 true (n : Int) 4 = .ok b ∧ b.length = n ∧ bpFromBytes 8 true ((b ++ rest).take n) = v ∧
+      (b ++ rest).drop n = rest := by
+  obtain ⟨b, hb, hlen, hv, _⟩ := Mutagen.C14.to_str_roundtrip v n 8 4 true (by decide) (by rw [pow256]; exact h)
+  refine ⟨b, hb, hlen, ?_, ?_⟩
+  · rw [take_app b rest n hlen]; exact hv
+  · exact drop_app b rest n hlen
+
+theorem readInteger_write (v : Nat) :
+    ∃ b, bpToStr (v : Int) 8 true (-1) 4 = .ok b ∧ bpFromBytes 8 true b = v ∧ b ≠ [] := by
+  obtain ⟨b, hb, hlen, hv, _⟩ := Mutagen.C14.to_str_growing_roundtrip v 8 4 true (by decide) (by decide)
+  refine ⟨b, hb, hv, ?_⟩
+  intro he; subst he; simp at hlen
+
+/-! ## VolumeAdjustmentsSpec (EQU2) -/
+
+/-- frequencies strictly increasing (so the list is what `sorted(dict.items())` returns) -/
+def Inc : List (Nat × Int) → Prop
+  | [] => True
+  | [_] => True
+  | p :: q :: r => p.1 < q.1 ∧ Inc (q :: r)
+
+def AdjOK (ps : List (Nat × Int)) : Prop :=
+  Inc ps ∧ ∀ p ∈ ps, p.1 < 256 ^ 2 ∧ -32768 ≤ p.2 ∧ p.2 < 32768
+
+def toII (p : Nat × Int) : Int × Int := ((p.1 : Int), p.2)
+
+theorem Inc.tail {p : Nat × Int} {r : List (Nat × Int)} (h : Inc (p :: r)) : Inc r := by
+  cases r with
+  | nil => trivial
+  | cons q r' => exact h.2
+
+theorem adjPairs_map (ps : List (Nat × Int)) : adjPairs (ps.map adjVal) = .ok (ps.map toII) := by
+  induction ps with
+  | nil => simp [adjPairs]
+  | cons p r ih =>
+    simp only [List.map_cons]
+    rw [show adjVal p = .list [.int (p.1 : Int), .int p.2] from rfl, adjPairs]
+    simp only [intIntPair, ih]
+    rfl
+
+theorem sortPairs_inc (ps : List (Nat × Int)) (h : Inc ps) : sortPairs (ps.map toII) = ps.map toII := by
+  induction ps with
+  | nil => rfl
+  | cons p r ih =>
+    simp only [List.map_cons, sortPairs, ih h.tail]
+    cases r with
+    | nil => rfl
+    | cons q r' =>
+      have hlt : (p.1 : Int) < (q.1 : Int) := by have := h.1; omega
+      simp [insertPair, pairLe, toII, hlt]
+
+theorem writeAdjPairs_read (ps : List (Nat × Int)) (h : ∀ p ∈ ps, p.1 < 256 ^ 2 ∧ -32768 ≤ p.2 ∧ p.2 < 32768) :
+    ∃ b, writeAdjPairs (ps.map toII) = .ok b ∧ readAdjPairs b = (ps, []) ∧ (ps ≠ [] → b ≠ []) := by
+  induction ps with
+  | nil => exact ⟨[], by simp [writeAdjPairs], by simp [readAdjPairs], by simp⟩
+  | cons p r ih =>
+    obtain ⟨bs, hbs, hrs, _⟩ := ih (fun x hx => h x (by simp [hx]))
+    obtain ⟨h1, h2, h3⟩ := h p (by simp)
+    obtain ⟨a, b, hab⟩ := toBE2_cases p.1
+    obtain ⟨c, d, hcd⟩ := toSignedBE2_cases p.2
+    have hu : ofBE [a, b] = p.1 := by rw [← hab]; exact ofBE_toBE 2 p.1 h1
+    have hs : ofSignedBE [c, d] = p.2 := by
+      rw [← hcd]; exact ofSignedBE_toSignedBE 2 (by decide) p.2 (by simp; omega) (by simp; omega)
+    have p1 := packU_ok 2 p.1 h1
+    have p2 := packS_ok 2 p.2 (by simp; omega) (by simp; omega)
+    refine ⟨a :: b :: c :: d :: bs, ?_, ?_, by simp⟩
+    · simp only [List.map_cons]
+      rw [show toII p = ((p.1 : Int), p.2) from rfl, writeAdjPairs, p1, p2, hbs, hab, hcd]
+      simp
+    · simp only [readAdjPairs, hrs, hu, hs]
+
+theorem upsert_append (k : Nat) (v : Int) (acc : List (Nat × Int)) (h : ∀ q ∈ acc, q.1 < k) :
+    upsert k v acc = acc ++ [(k, v)] := by
+  induction acc with
+  | nil => rfl
+  | cons q r ih =>
+    have hq : q.1 < k := h q (by simp)
+    have h1 : ¬ (k < q.1) := by omega
+    have h2 : ¬ (k = q.1) := by omega
+    obtain ⟨qk, qv⟩ := q
+    simp only at hq h1 h2
+    simp [upsert, h1, h2, ih (fun x hx => h x (by simp [hx]))]
+
+theorem foldl_upsert (ps acc : List (Nat × Int)) (hinc : Inc ps)
+    (hacc : ∀ p ∈ ps, ∀ q ∈ acc, q.1 < p.1) :
+    ps.foldl (fun acc p => upsert p.1 p.2 acc) acc = acc ++ ps := by
+  induction ps generalizing acc with
+  | nil => simp
+  | cons p r ih =>
+    simp only [List.foldl_cons]
+    rw [upsert_append p.1 p.2 acc (hacc p (by simp))]
+    rw [ih (acc ++ [(p.1, p.2)]) hinc.tail ?_]
+    · simp
+    · intro p' hp' q hq
+      -- every later key is larger than `p`'s, which is larger than everything in `acc`
+      have hlt : ∀ (l : List (Nat × Int)) (x : Nat × Int), Inc (x :: l) → ∀ y ∈ l, x.1 < y.1 := by
+        intro l
+        induction l with
+        | nil => intro x _ y hy; simp at hy
+        | cons z l' ihl =>
+          intro x hx y hy
+          rcases List.mem_cons.mp hy with rfl | hy
+          · exact hx.1
+          · have := ihl z hx.2 y hy
+            have := hx.1
+            omega
+      have hp := hlt r p hinc p' hp'
+      rcases List.mem_append.mp hq with hq | hq
+      · have := hacc p (by simp) q hq; omega
+      · simp at hq; subst hq; exact hp
+
+theorem readVolAdjs_write (ps : List (Nat × Int)) (h : AdjOK ps) :
+    ∃ b, adjPairs (ps.map adjVal) = .ok (ps.map toII) ∧ writeAdjPairs (sortPairs (ps.map toII)) = .ok b ∧
+      readVolAdjs b = (.list (ps.map adjVal), []) ∧ (ps ≠ [] → b ≠ []) := by
+  obtain ⟨b, hb, hr, hne⟩ := writeAdjPairs_read ps h.2
+  refine ⟨b, adjPairs_map ps, by rw [sortPairs_inc ps h.1, hb], ?_, hne⟩
+  simp [readVolAdjs, hr, foldl_upsert ps [] h.1 (by simp)]
+
+/-! ## ASPIIndexSpec -/
+
+def natVal (n : Nat) : Val := .int (n : Int)
+
+theorem writeUnits_read (size : Nat) (vs : List Nat) (h : ∀ v ∈ vs, v < 256 ^ size) :
+    ∃ b, writeUnits size (vs.map natVal) = .ok b ∧ b.length = vs.length * size ∧
+      readUnits size vs.length b = vs.map natVal := by
+  induction vs with
+  | nil => exact ⟨[], by simp [writeUnits], by simp, by simp [readUnits]⟩
+  | cons v r ih =>
+    obtain ⟨bs, hbs, hlen, hrs⟩ := ih (fun x hx => h x (by simp [hx]))
+    have hp := packU_ok size v (h v (by simp))
+    refine ⟨toBE size v ++ bs, ?_, ?_, ?_⟩
+    · simp only [List.map_cons]
+      rw [show natVal v = .int (v : Int) from rfl, writeUnits, hp, hbs]
+    · simp [hlen, Nat.succ_mul]; omega
+    · simp only [List.length_cons, readUnits, take_app _ bs size (length_toBE size v),
+        drop_app _ bs size (length_toBE size v), ofBE_toBE size v (h v (by simp)), hrs, List.map_cons]
+      rfl
+
+theorem readAspi_write (c : Ctx) (b : Int) (hb : b = 8 ∨ b = 16) (vs : List Nat)
+    (hcb : c.aspiB = some b) (hcn : c.aspiN = some (vs.length : Int))
+    (h : ∀ v ∈ vs, v < 256 ^ (if b = 16 then 2 else 1)) (rest : Bytes) :
+    ∃ d, writeAspi c (.list (vs.map natVal)) = .ok d ∧
+      readAspi c (d ++ rest) = .ok (.list (vs.map natVal), rest) ∧ (vs ≠ [] → d ≠ []) := by
+  obtain ⟨d, hd, hlen, hr⟩ := writeUnits_read (if b = 16 then 2 else 1) vs h
+  have hb' : b = 16 ∨ b = 8 := hb.symm
+  refine ⟨d, by simp [writeAspi, hcb, hcn, hb', hd], ?_, ?_⟩
+  · have ht : (d ++ rest).take (vs.length * (if b = 16 then 2 else 1)) = d := take_app _ _ _ hlen
+    have hdr : (d ++ rest).drop (vs.length * (if b = 16 then 2 else 1)) = rest := drop_app _ _ _ hlen
+    simp [readAspi, hcb, hcn, hb', ht, hdr, hlen, hr]
+  · intro hne he
+    rw [he] at hlen
+    cases vs with
+    | nil => exact hne rfl
+    | cons v r =>
+      have hsz : 0 < (if b = 16 then 2 else 1 : Nat) := by split <;> omega
+      have hpos := Nat.mul_pos (by omega : 0 < r.length + 1) hsz
+      simp only [List.length_nil, List.length_cons] at hlen
+      omega
+
+/-! ## one lemma for every spec kind -/
+
+/-- what a spec-level round trip is relative to: the nested-frame reader/writer, the save
+configuration and the header of the tag being read -/
+structure Env where
+  sub : Hdr → Bytes → Except PyErr (List Val × Bytes)
+  subw : Cfg → List Val → Except PyErr Bytes
+  cfg : Cfg
+  h : Hdr
+
+/-- specs that consume all remaining data (or leave only an unusable tail) -/
+def greedy : SpecKind → Bool
+  | .binary | .integer | .multi _ | .syncText | .keyEvent | .volAdjs | .frames | .rva _ => true
+  | _ => false
+
+def isEncText : SpecKind → Bool
+  | .encText _ => true
+  | _ => false
+
+/-- valid non-degenerate values of each spec kind (`c` = the attributes of the frame).
+`RVASpec` has no general theorem (`False` here); nested frames are valid when the nested
+writer/reader pair round-trips on them. -/
+def Valid (E : Env) (c : Ctx) (k : SpecKind) (v : Val) : Prop :=
+  match k with
+  | .byte | .pictureType | .ctocFlags | .channel => ∃ n : Nat, v = .int (n : Int) ∧ n < 256
+  | .encoding => ∃ n : Nat, v = .int (n : Int) ∧ n ≤ 3
+  | .string n | .frameId n => ∃ t, v = .text t ∧ t.length = n ∧ 0 < n ∧ ∀ x ∈ t, x < 128
+  | .binary => ∃ b, v = .bytes b
+  | .encText tk => ∃ enc t, v = .text t ∧ ctxEnc c = .ok enc ∧ TextKindOK enc tk t
+  | .multi elems => elems ≠ [] ∧ ∃ enc recs, ctxEnc c = .ok enc ∧ v = .list (recs.map (recordVal elems)) ∧
+      recs ≠ [] ∧ ∀ r ∈ recs, RecordOK E.h enc elems r
+  | .latin1Text => ∃ t, v = .text t ∧ Latin1OK t
+  | .latin1List => ∃ ts : List Text, v = .list (ts.map Val.text) ∧ ts.length < 256 ∧ ∀ t ∈ ts, Latin1OK t
+  | .sizedInt n => ∃ m : Nat, v = .int (m : Int) ∧ m < 256 ^ n ∧ 0 < n
+  | .integer => ∃ m : Nat, v = .int (m : Int)
+  | .volAdj => ∃ i : Int, v = .int i ∧ -32768 ≤ i ∧ i ≤ 32767
+  | .volPeak => ∃ m : Nat, v = .int (m : Int) ∧ m ≤ 65535
+  | .syncText => ∃ enc es, ctxEnc c = .ok enc ∧ v = .list (es.map syncVal) ∧ es ≠ [] ∧ SyncOK enc es
+  | .keyEvent => ∃ es, v = .list (es.map keyVal) ∧ es ≠ [] ∧ KeyOK es
+  | .volAdjs => ∃ ps, v = .list (ps.map adjVal) ∧ ps ≠ [] ∧ AdjOK ps
+  | .aspiIndex => ∃ (b : Int) (vs : List Nat), (b = 8 ∨ b = 16) ∧ c.aspiB = some b ∧
+      c.aspiN = some (vs.length : Int) ∧ v = .list (vs.map natVal) ∧ vs ≠ [] ∧
+      ∀ x ∈ vs, x < 256 ^ (if b = 16 then 2 else 1)
+  | .frames => ∃ fs b, v = .list fs ∧ E.subw E.cfg fs = .ok b ∧ E.sub E.h b = .ok (fs, [])
+  | .rva _ => False
+
+/-- what `read` returns for a written value: the value itself, except that a peak written
+as `n/2^15` comes back as `(n·2^16)/(2^31-1)` -/
+def normVal (k : SpecKind) (v : Val) : Val :=
+  match k, v with
+  | .volPeak, .int i => .int (i * 65536)
+  | _, _ => v
+
+def RestOK (h : Hdr) (k : SpecKind) (rest : Bytes) : Prop :=
+  (greedy k = true → rest = []) ∧ (isEncText k = true → TailOK h rest)
+
+section unfold
+variable (sub : Hdr → Bytes → Except PyErr (List Val × Bytes)) (subw : Cfg → List Val → Except PyErr Bytes)
+  (cfg : Cfg) (h : Hdr) (c : Ctx) (v : Val) (d : Bytes)
+theorem writeSpec_byte : writeSpec subw cfg .byte c v = writeByteVal v := rfl
+theorem writeSpec_pictureType : writeSpec subw cfg .pictureType c v = writeByteVal v := rfl
+theorem writeSpec_ctocFlags : writeSpec subw cfg .ctocFlags c v = writeByteVal v := rfl
+theorem writeSpec_channel : writeSpec subw cfg .channel c v = writeByteVal v := rfl
+theorem writeSpec_encoding : writeSpec subw cfg .encoding c v = writeByteVal v := rfl
+theorem writeSpec_string (n : Nat) : writeSpec subw cfg (.string n) c v = writeString n v := rfl
+theorem writeSpec_frameId (n : Nat) : writeSpec subw cfg (.frameId n) c v = writeString n v := rfl
+theorem writeSpec_binary (b : Bytes) : writeSpec subw cfg .binary c (.bytes b) = .ok b := rfl
+theorem writeSpec_encText (tk : TextKind) : writeSpec subw cfg (.encText tk) c v = writeTextKind c tk v := rfl
+theorem writeSpec_multi (e : List TextKind) (vs : List Val) :
+    writeSpec subw cfg (.multi e) c (.list vs) = writeMulti c e vs := rfl
+theorem writeSpec_latin1Text : writeSpec subw cfg .latin1Text c v = writeLatin1 v := rfl
+theorem writeSpec_latin1List (vs : List Val) (a b : Bytes) (ha : bchr vs.length = .ok a) (hb : writeLatin1s vs = .ok b) :
+    writeSpec subw cfg .latin1List c (.list vs) = .ok (a ++ b) := by
+  unfold writeSpec
+  simp only [ha, hb]
+theorem writeSpec_sizedInt (n : Nat) (i : Int) :
+    writeSpec subw cfg (.sizedInt n) c (.int i) = bpToStr i 8 true n 4 := rfl
+theorem writeSpec_integer (i : Int) : writeSpec subw cfg .integer c (.int i) = bpToStr i 8 true (-1) 4 := rfl
+theorem writeSpec_volAdj : writeSpec subw cfg .volAdj c v = writeVolAdj v := rfl
+theorem writeSpec_volPeak : writeSpec subw cfg .volPeak c v = writeVolPeak v := rfl
+theorem writeSpec_syncText (vs : List Val) : writeSpec subw cfg .syncText c (.list vs) = writeSyncText c vs := rfl
+theorem writeSpec_keyEvent (vs : List Val) : writeSpec subw cfg .keyEvent c (.list vs) = writeKeyEvents vs := rfl
+theorem writeSpec_volAdjs (vs : List Val) (ps : List (Int × Int)) (hp : adjPairs vs = .ok ps) :
+    writeSpec subw cfg .volAdjs c (.list vs) = writeAdjPairs (sortPairs ps) := by
+  unfold writeSpec
+  simp only [hp]
+theorem writeSpec_aspiIndex : writeSpec subw cfg .aspiIndex c v = writeAspi c v := rfl
+theorem writeSpec_frames (fs : List Val) : writeSpec subw cfg .frames c (.list fs) = subw cfg fs := rfl
+
+theorem readSpec_byte (i : Int) (r : Bytes) (hb : readByte d = .ok (i, r)) : readSpec sub h .byte c d = .ok (.int i, r) := by
+  simp only [readSpec, hb]
+theorem readSpec_pictureType (i : Int) (r : Bytes) (hb : readByte d = .ok (i, r)) :
+    readSpec sub h .pictureType c d = .ok (.int i, r) := by simp only [readSpec, hb]
+theorem readSpec_ctocFlags (i : Int) (r : Bytes) (hb : readByte d = .ok (i, r)) :
+    readSpec sub h .ctocFlags c d = .ok (.int i, r) := by simp only [readSpec, hb]
+theorem readSpec_channel (i : Int) (r : Bytes) (hb : readByte d = .ok (i, r)) :
+    readSpec sub h .channel c d = .ok (.int i, r) := by simp only [readSpec, hb]
+theorem readSpec_encoding (i : Int) (r : Bytes) (hb : readByte d = .ok (i, r)) (hi : i ≤ 3) :
+    readSpec sub h .encoding c d = .ok (.int i, r) := by simp only [readSpec, hb, hi, ↓reduceIte]
+theorem readSpec_string (n : Nat) : readSpec sub h (.string n) c d = readString n d := rfl
+theorem readSpec_frameId (n : Nat) : readSpec sub h (.frameId n) c d = readString n d := rfl
+theorem readSpec_binary : readSpec sub h .binary c d = .ok (.bytes d, []) := rfl
+theorem readSpec_encText (tk : TextKind) : readSpec sub h (.encText tk) c d = readTextKind h c tk d := rfl
+theorem readSpec_multi (e : List TextKind) (vs : List Val) (hm : readMulti h c e d = .ok vs) :
+    readSpec sub h (.multi e) c d = .ok (.list vs, []) := by simp only [readSpec, hm]
+theorem readSpec_latin1Text : readSpec sub h .latin1Text c d = .ok (.text (readLatin1 d).1, (readLatin1 d).2) := rfl
+theorem readSpec_latin1List (n : Int) (r : Bytes) (hb : readByte d = .ok (n, r)) :
+    readSpec sub h .latin1List c d = .ok (.list (readLatin1N n.toNat r).1, (readLatin1N n.toNat r).2) := by
+  simp only [readSpec, hb]
+theorem readSpec_sizedInt (n : Nat) :
+    readSpec sub h (.sizedInt n) c d = .ok (.int (bpFromBytes 8 true (d.take n)), d.drop n) := rfl
+theorem readSpec_integer : readSpec sub h .integer c d = .ok (.int (bpFromBytes 8 true d), []) := rfl
+theorem readSpec_volAdj : readSpec sub h .volAdj c d = readVolAdj d := rfl
+theorem readSpec_volPeak : readSpec sub h .volPeak c d = readVolPeak d := rfl
+theorem readSpec_syncText (enc : Nat) (vs : List Val) (hc : ctxEnc c = .ok enc) (hs : readSyncText enc d = .ok vs) :
+    readSpec sub h .syncText c d = .ok (.list vs, []) := by simp only [readSpec, hc, hs]
+theorem readSpec_keyEvent : readSpec sub h .keyEvent c d = .ok (.list (readKeyEvents d).1, (readKeyEvents d).2) := rfl
+theorem readSpec_volAdjs : readSpec sub h .volAdjs c d = .ok (readVolAdjs d) := rfl
+theorem readSpec_aspiIndex : readSpec sub h .aspiIndex c d = readAspi c d := rfl
+theorem readSpec_frames (fs : List Val) (r : Bytes) (hs : sub h d = .ok (fs, r)) :
+    readSpec sub h .frames c d = .ok (.list fs, r) := by simp only [readSpec, hs]
+end unfold
+
+/-- THE spec-level round trip: for every spec kind with a `Valid` value (all kinds of the
+frame table except `RVASpec`), what `write` produces, followed by `rest`, is read back as
+the same value (`normVal`: the peak in its read-side scale) leaving `rest`; a spec without
+`handle_nodata` writes at least one byte. -/
+theorem read_write (E : Env) (c : Ctx) (k : SpecKind) (v : Val) (hv : Valid E c k v) (rest : Bytes)
+    (hr : RestOK E.h k rest) :
+    ∃ b, writeSpec E.subw E.cfg k c v = .ok b ∧
+      readSpec E.sub E.h k c (b ++ rest) = .ok (normVal k v, rest) ∧ (handleNoData k = false → b ≠ []) := by
+  have byteCase : ∀ n : Nat, n < 256 → ∃ b, writeByteVal (.int (n : Int)) = .ok b ∧
+      readByte (b ++ rest) = .ok ((n : Int), rest) ∧ b ≠ [] := by
+    intro n hn
+    exact ⟨[b8 n], by simp [writeByteVal, bchr_ok n hn], by simp [readByte, toNat_b8 n hn], by simp⟩
+  cases k with
+  | byte =>
+    obtain ⟨n, rfl, hn⟩ := hv
+    obtain ⟨b, h1, h2, h3⟩ := byteCase n hn
+    exact ⟨b, by rw [writeSpec_byte, h1], by rw [readSpec_byte _ _ _ _ _ _ h2]; rfl, fun _ => h3⟩
+  | pictureType =>
+    obtain ⟨n, rfl, hn⟩ := hv
+    obtain ⟨b, h1, h2, h3⟩ := byteCase n hn
+    exact ⟨b, by rw [writeSpec_pictureType, h1], by rw [readSpec_pictureType _ _ _ _ _ _ h2]; rfl, fun _ => h3⟩
+  | ctocFlags =>
+    obtain ⟨n, rfl, hn⟩ := hv
+    obtain ⟨b, h1, h2, h3⟩ := byteCase n hn
+    exact ⟨b, by rw [writeSpec_ctocFlags, h1], by rw [readSpec_ctocFlags _ _ _ _ _ _ h2]; rfl, fun _ => h3⟩
+  | channel =>
+    obtain ⟨n, rfl, hn⟩ := hv
+    obtain ⟨b, h1, h2, h3⟩ := byteCase n hn
+    exact ⟨b, by rw [writeSpec_channel, h1], by rw [readSpec_channel _ _ _ _ _ _ h2]; rfl, fun _ => h3⟩
+  | encoding =>
+    obtain ⟨n, rfl, hn⟩ := hv
+    obtain ⟨b, h1, h2, h3⟩ := byteCase n (by omega)
+    have : (n : Int) ≤ 3 := by omega
+    exact ⟨b, by rw [writeSpec_encoding, h1], by rw [readSpec_encoding _ _ _ _ _ _ h2 this]; rfl, fun _ => h3⟩
+  | string n =>
+    obtain ⟨t, rfl, hlen, hn, ht⟩ := hv
+    obtain ⟨b, h1, h2, h3⟩ := readString_write n t hlen ht rest
+    exact ⟨b, by rw [writeSpec_string, h1], by rw [readSpec_string, h2]; rfl, fun _ => h3 hn⟩
+  | frameId n =>
+    obtain ⟨t, rfl, hlen, hn, ht⟩ := hv
+    obtain ⟨b, h1, h2, h3⟩ := readString_write n t hlen ht rest
+    exact ⟨b, by rw [writeSpec_frameId, h1], by rw [readSpec_frameId, h2]; rfl, fun _ => h3 hn⟩
+  | binary =>
+    obtain ⟨b, rfl⟩ := hv
+    have : rest = [] := hr.1 rfl
+    subst this
+    exact ⟨b, by rw [writeSpec_binary], by rw [readSpec_binary]; simp [normVal], by simp [handleNoData]⟩
+  | encText tk =>
+    obtain ⟨enc, t, rfl, hc, ht⟩ := hv
+    obtain ⟨b, h1, h2, h3, _⟩ := readTextKind_write E.h c enc hc tk t ht rest (hr.2 rfl)
+    exact ⟨b, by rw [writeSpec_encText, h1], by rw [readSpec_encText, h2]; rfl, fun _ => h3⟩
+  | multi elems =>
+    obtain ⟨hne, enc, recs, hc, rfl, hrne, hrecs⟩ := hv
+    have : rest = [] := hr.1 rfl
+    subst this
+    obtain ⟨b, h1, h2, h3, _⟩ := readMulti_write E.h c enc hc elems hne recs hrecs
+    exact ⟨b, by rw [writeSpec_multi, h1], by rw [List.append_nil, readSpec_multi _ _ _ _ _ _ h2]; rfl, fun _ => h3 hrne⟩
+  | latin1Text =>
+    obtain ⟨t, rfl, ht⟩ := hv
+    obtain ⟨b, h1, h2, h3⟩ := readLatin1_write t ht rest
+    exact ⟨b, by rw [writeSpec_latin1Text, h1], by rw [readSpec_latin1Text, h2]; rfl, fun _ => h3⟩
+  | latin1List =>
+    obtain ⟨ts, rfl, hlen, hts⟩ := hv
+    obtain ⟨bs, h1, h2⟩ := readLatin1N_write ts hts rest
+    have hb := bchr_ok ts.length hlen
+    have hlen' : (ts.map Val.text).length = ts.length := by simp
+    refine ⟨[b8 ts.length] ++ bs, ?_, ?_, fun _ => by simp⟩
+    · exact writeSpec_latin1List _ _ _ _ _ _ (by rw [hlen']; exact hb) h1
+    · have hrb : readByte ([b8 ts.length] ++ bs ++ rest) = .ok ((ts.length : Int), bs ++ rest) := by
+        simp [readByte, toNat_b8 ts.length hlen]
+      rw [readSpec_latin1List _ _ _ _ _ _ hrb]
+      simp [h2, normVal]
+  | sizedInt n =>
+    obtain ⟨m, rfl, hm, hn⟩ := hv
+    obtain ⟨b, h1, hlen, h2, h3⟩ := readSized_write n m hm rest
+    refine ⟨b, by rw [writeSpec_sizedInt, h1], by rw [readSpec_sizedInt, h2, h3]; rfl, fun _ => ?_⟩
+    intro he; subst he; simp at hlen; omega
+  | integer =>
+    obtain ⟨m, rfl⟩ := hv
+    have : rest = [] := hr.1 rfl
+    subst this
+    obtain ⟨b, h1, h2, h3⟩ := readInteger_write m
+    exact ⟨b, by rw [writeSpec_integer, h1], by rw [List.append_nil, readSpec_integer, h2]; rfl, fun _ => h3⟩
+  | volAdj =>
+    obtain ⟨i, rfl, hlo, hhi⟩ := hv
+    obtain ⟨b, h1, h2, h3⟩ := readVolAdj_write i hlo hhi rest
+    exact ⟨b, by rw [writeSpec_volAdj, h1], by rw [readSpec_volAdj, h2]; rfl, fun _ => h3⟩
+  | volPeak =>
+    obtain ⟨m, rfl, hm⟩ := hv
+    obtain ⟨b, h1, h2, h3⟩ := readVolPeak_write m hm rest
+    refine ⟨b, by rw [writeSpec_volPeak, h1], ?_, fun _ => h3⟩
+    rw [readSpec_volPeak, h2]
+    simp [normVal]
+  | syncText =>
+    obtain ⟨enc, es, hc, rfl, hne, hes⟩ := hv
+    have : rest = [] := hr.1 rfl
+    subst this
+    obtain ⟨b, h1, h2, h3⟩ := readSyncText_write c enc hc es hes
+    exact ⟨b, by rw [writeSpec_syncText, h1], by rw [List.append_nil, readSpec_syncText _ _ _ _ enc _ hc h2]; rfl,
+      fun _ => h3 hne⟩
+  | keyEvent =>
+    obtain ⟨es, rfl, hne, hes⟩ := hv
+    have : rest = [] := hr.1 rfl
+    subst this
+    obtain ⟨b, h1, h2, h3⟩ := readKeyEvents_write es hes
+    exact ⟨b, by rw [writeSpec_keyEvent, h1], by rw [List.append_nil, readSpec_keyEvent, h2]; rfl, fun _ => h3 hne⟩
+  | volAdjs =>
+    obtain ⟨ps, rfl, hne, hps⟩ := hv
+    have : rest = [] := hr.1 rfl
+    subst this
+    obtain ⟨b, h0, h1, h2, h3⟩ := readVolAdjs_write ps hps
+    exact ⟨b, by rw [writeSpec_volAdjs _ _ _ _ _ h0, h1], by rw [List.append_nil, readSpec_volAdjs, h2]; rfl,
+      fun _ => h3 hne⟩
+  | aspiIndex =>
+    obtain ⟨b, vs, hb, hcb, hcn, rfl, hne, hvs⟩ := hv
+    obtain ⟨d, h1, h2, h3⟩ := readAspi_write c b hb vs hcb hcn hvs rest
+    exact ⟨d, by rw [writeSpec_aspiIndex, h1], by rw [readSpec_aspiIndex, h2]; rfl, fun _ => h3 hne⟩
+  | frames =>
+    obtain ⟨fs, b, rfl, hw, hrd⟩ := hv
+    have : rest = [] := hr.1 rfl
+    subst this
+    exact ⟨b, by rw [writeSpec_frames, hw], by rw [List.append_nil, readSpec_frames _ _ _ _ _ _ hrd]; rfl,
+      by simp [handleNoData]⟩
+  | rva m => exact absurd hv (by simp [Valid])
+
+/-! ## the frame level: `_writeData` / `_readData` -/
+
+def usesEnc : SpecKind → Bool
+  | .encText _ | .multi _ | .syncText => true
+  | _ => false
+
+def usesAspi : SpecKind → Bool
+  | .aspiIndex => true
+  | _ => false
+
+def setsEnc (s : FieldSpec) : Bool := decide (s.name = "encoding")
+def setsAspi (s : FieldSpec) : Bool := decide (s.name = "N") || decide (s.name = "b")
+
+/-- THE structural condition the frame round trip needs, on the spec list
+`_framespec ++ _optionalspec` of a class:
+* a spec that consumes the rest of the data (`greedy`) is the last one;
+* from a spec that reads `frame.encoding` on, no spec is named `encoding` (so the attribute
+  has its final value when the spec is read), likewise `N`/`b` for `ASPIIndexSpec`;
+* a `VolumePeakSpec` is not named `encoding`, `N` or `b` (its read value is rescaled). -/
+def structOK : List FieldSpec → Bool
+  | [] => true
+  | s :: ss =>
+    (!greedy s.kind || ss.isEmpty) &&
+    (!usesEnc s.kind || (s :: ss).all (fun x => !setsEnc x)) &&
+    (!usesAspi s.kind || (s :: ss).all (fun x => !setsAspi x)) &&
+    (!(s.kind == .volPeak) || (!setsEnc s && !setsAspi s)) &&
+    structOK ss
+
+def normVals : List FieldSpec → List Val → List Val
+  | s :: ss, v :: vs => normVal s.kind v :: normVals ss vs
+  | _, _ => []
+
+/-- every value valid with respect to the attributes set by the fields before it -/
+def FieldsValid (E : Env) : Ctx → List FieldSpec → List Val → Prop
+  | c, s :: ss, v :: vs => Valid E c s.kind v ∧ FieldsValid E (ctxUpdate c s.name (normVal s.kind v)) ss vs
+  | _, _, _ => True
+
+/-- under a v2.2/v2.3 header: the bytes written after an `EncodedTextSpec` field are empty
+or not all NUL (vacuous under a v2.4 header) -/
+def TailsOK (E : Env) (cw : Ctx) : List FieldSpec → List Val → Prop
+  | s :: ss, _ :: vs =>
+    (isEncText s.kind = true → ∀ b, writeOpt E.subw E.cfg cw ss vs = .ok b → TailOK E.h b) ∧ TailsOK E cw ss vs
+  | _, _ => True
+
+theorem TailsOK_v24 (E : Env) (cw : Ctx) (hv : ¬ E.h.version < 4) (specs : List FieldSpec) (vals : List Val) :
+    TailsOK E cw specs vals := by
+  induction specs generalizing vals with
+  | nil => cases vals <;> trivial
+  | cons s ss ih =>
+    cases vals with
+    | nil => trivial
+    | cons v vs => exact ⟨fun _ b _ h4 => absurd h4 hv, ih vs⟩
+
+/-! ### the writers depend on the frame attributes only through the ones they use -/
+
+theorem ctxEnc_congr (c c' : Ctx) (h : c.enc = c'.enc) : ctxEnc c = ctxEnc c' := by
+  unfold ctxEnc; rw [h]
+
+theorem writeEncText_congr (c c' : Ctx) (h : c.enc = c'.enc) (t : Text) : writeEncText c t = writeEncText c' t := by
+  unfold writeEncText; rw [ctxEnc_congr c c' h]
+
+theorem writeTextKind_congr (c c' : Ctx) (h : c.enc = c'.enc) (k : TextKind) (v : Val) :
+    writeTextKind c k v = writeTextKind c' k v := by
+  cases v <;> cases k <;> simp [writeTextKind, writeEncText_congr c c' h]
+
+theorem writeRecord_congr (c c' : Ctx) (h : c.enc = c'.enc) (ks : List TextKind) (vs : List Val) :
+    writeRecord c ks vs = writeRecord c' ks vs := by
+  induction ks generalizing vs with
+  | nil => cases vs <;> simp [writeRecord]
+  | cons k ks ih =>
+    cases vs with
+    | nil => simp [writeRecord]
+    | cons v vs => simp only [writeRecord, writeTextKind_congr c c' h, ih]
+
+theorem writeMulti_congr (c c' : Ctx) (h : c.enc = c'.enc) (ks : List TextKind) (vs : List Val) :
+    writeMulti c ks vs = writeMulti c' ks vs := by
+  induction vs with
+  | nil => simp [writeMulti]
+  | cons v vs ih =>
+    simp only [writeMulti, ih, writeTextKind_congr c c' h, writeRecord_congr c c' h]
+
+theorem writeSyncText_congr (c c' : Ctx) (h : c.enc = c'.enc) (vs : List Val) :
+    writeSyncText c vs = writeSyncText c' vs := by
+  induction vs with
+  | nil => simp [writeSyncText]
+  | cons v vs ih => simp only [writeSyncText, ih, writeEncText_congr c c' h]
+
+theorem writeAspi_congr (c c' : Ctx) (h1 : c.aspiN = c'.aspiN) (h2 : c.aspiB = c'.aspiB) (v : Val) :
+    writeAspi c v = writeAspi c' v := by
+  unfold writeAspi; rw [h1, h2]
+
+theorem writeSpec_congr (subw : Cfg → List Val → Except PyErr Bytes) (cfg : Cfg) (k : SpecKind) (c c' : Ctx) (v : Val)
+    (he : usesEnc k = true → c.enc = c'.enc)
+    (ha : usesAspi k = true → c.aspiN = c'.aspiN ∧ c.aspiB = c'.aspiB) :
+    writeSpec subw cfg k c v = writeSpec subw cfg k c' v := by
+  cases k with
+  | encText tk => rw [writeSpec_encText, writeSpec_encText, writeTextKind_congr c c' (he rfl)]
+  | multi e =>
+    cases v with
+    | list vs => rw [writeSpec_multi, writeSpec_multi, writeMulti_congr c c' (he rfl)]
+    | _ => rfl
+  | syncText =>
+    cases v with
+    | list vs => rw [writeSpec_syncText, writeSpec_syncText, writeSyncText_congr c c' (he rfl)]
+    | _ => rfl
+  | aspiIndex => rw [writeSpec_aspiIndex, writeSpec_aspiIndex, writeAspi_congr c c' (ha rfl).1 (ha rfl).2]
+  | _ => rfl
+
+/-! ### attributes that no later spec sets keep their value -/
+
+theorem ctxUpdate_enc (c : Ctx) (name : String) (v : Val) (h : ¬ name = "encoding") :
+    (ctxUpdate c name v).enc = c.enc := by
+  unfold ctxUpdate
+  cases v with
+  | int i =>
+    simp only [h, ↓reduceIte]
+    split
+    · rfl
+    · split <;> rfl
+  | _ => rfl
+
+theorem ctxUpdate_aspi (c : Ctx) (name : String) (v : Val) (h1 : ¬ name = "N") (h2 : ¬ name = "b") :
+    (ctxUpdate c name v).aspiN = c.aspiN ∧ (ctxUpdate c name v).aspiB = c.aspiB := by
+  unfold ctxUpdate
+  cases v with
+  | int i =>
+    simp only [h1, h2, ↓reduceIte]
+    split <;> exact ⟨rfl, rfl⟩
+  | _ => exact ⟨rfl, rfl⟩
+
+theorem frameCtx_enc (specs : List FieldSpec) (vals : List Val) (c : Ctx)
+    (h : specs.all (fun x => !setsEnc x) = true) : (frameCtx specs vals c).enc = c.enc := by
+  induction specs generalizing vals c with
+  | nil => cases vals <;> rfl
+  | cons s ss ih =>
+    cases vals with
+    | nil => rfl
+    | cons v vs =>
+      simp only [List.all_cons, Bool.and_eq_true, setsEnc, Bool.not_eq_true', decide_eq_false_iff_not] at h
+      simp only [frameCtx]
+      rw [ih vs _ h.2, ctxUpdate_enc c s.name v h.1]
+
+theorem frameCtx_aspi (specs : List FieldSpec) (vals : List Val) (c : Ctx)
+    (h : specs.all (fun x => !setsAspi x) = true) :
+    (frameCtx specs vals c).aspiN = c.aspiN ∧ (frameCtx specs vals c).aspiB = c.aspiB := by
+  induction specs generalizing vals c with
+  | nil => cases vals <;> exact ⟨rfl, rfl⟩
+  | cons s ss ih =>
+    cases vals with
+    | nil => exact ⟨rfl, rfl⟩
+    | cons v vs =>
+      simp only [List.all_cons, Bool.and_eq_true, setsAspi, Bool.not_eq_true', Bool.or_eq_false_iff,
+        decide_eq_false_iff_not] at h
+      simp only [frameCtx]
+      have h0 := ctxUpdate_aspi c s.name v h.1.1 h.1.2
+      have h1 := ih vs (ctxUpdate c s.name v) h.2
+      exact ⟨h1.1.trans h0.1, h1.2.trans h0.2⟩
+
+theorem ctxUpdate_norm (c : Ctx) (s : FieldSpec) (v : Val)
+    (h : (s.kind == .volPeak) = true → setsEnc s = false ∧ setsAspi s = false) :
+    ctxUpdate c s.name (normVal s.kind v) = ctxUpdate c s.name v := by
+  by_cases hk : s.kind = .volPeak
+  · have := h (by simp [hk])
+    simp only [setsEnc, setsAspi, decide_eq_false_iff_not, Bool.or_eq_false_iff] at this
+    obtain ⟨h1, h2, h3⟩ := this
+    rw [hk]
+    cases v with
+    | int i => simp [normVal, ctxUpdate, h1, h2, h3]
+    | _ => rfl
+  · have : normVal s.kind v = v := by
+      unfold normVal
+      split
+      · rename_i hk'; exact absurd hk' hk
+      · rfl
+    rw [this]
+
+/-- THE induction over the spec list: the values written one after the other (`writeOpt`:
+as many as there are values) are read back by the optional-spec reader, which stops when
+the data is used up. -/
+theorem readOpt_writeOpt (E : Env) (specs : List FieldSpec) :
+    ∀ (vals : List Val) (cr cw : Ctx), vals.length ≤ specs.length → structOK specs = true →
+      FieldsValid E cr specs vals → TailsOK E cw specs vals →
+      (∀ hlt : vals.length < specs.length, handleNoData (specs[vals.length]).kind = false) →
+      cw = frameCtx specs vals cr →
+      ∃ b, writeOpt E.subw E.cfg cw specs vals = .ok b ∧
+        readOpt E.sub E.h cr specs b = .ok (normVals specs vals, []) := by
+  induction specs with
+  | nil =>
+    intro vals cr cw hlen _ _ _ _ _
+    cases vals with
+    | nil => exact ⟨[], by simp [writeOpt], by simp [readOpt, normVals]⟩
+    | cons _ _ => simp at hlen
+  | cons s ss ih =>
+    intro vals cr cw hlen hst hval htails hcomp hcw
+    cases vals with
+    | nil =>
+      have hnd := hcomp (by simp)
+      simp only [List.length_nil, List.getElem_cons_zero] at hnd
+      exact ⟨[], by simp [writeOpt], by simp [readOpt, hnd, normVals]⟩
+    | cons v vs =>
+      simp only [structOK, Bool.and_eq_true, Bool.or_eq_true, Bool.not_eq_true'] at hst
+      obtain ⟨⟨⟨⟨hgr, henc⟩, haspi⟩, hpk⟩, hst'⟩ := hst
+      obtain ⟨hv, hvals⟩ := hval
+      obtain ⟨htl, htails'⟩ := htails
+      have hnorm : ctxUpdate cr s.name (normVal s.kind v) = ctxUpdate cr s.name v := by
+        apply ctxUpdate_norm
+        intro hk
+        rcases hpk with hpk | hpk
+        · rw [hk] at hpk; cases hpk
+        · simpa using hpk
+      have hcw' : cw = frameCtx ss vs (ctxUpdate cr s.name (normVal s.kind v)) := by
+        rw [hnorm, hcw]; rfl
+      have hlen' : vs.length ≤ ss.length := by simpa using hlen
+      have hcomp' : ∀ hlt : vs.length < ss.length, handleNoData (ss[vs.length]).kind = false := by
+        intro hlt
+        have := hcomp (by simpa using hlt)
+        simpa using this
+      obtain ⟨bs, hbs, hrs⟩ := ih vs _ cw hlen' hst' hvals htails' hcomp' hcw'
+      -- what follows this spec
+      have hrest : RestOK E.h s.kind bs := by
+        constructor
+        · intro hg
+          rcases hgr with hgr | hgr
+          · rw [hg] at hgr; cases hgr
+          · have : ss = [] := by simpa using hgr
+            subst this
+            have : vs = [] := by cases vs with
+              | nil => rfl
+              | cons _ _ => simp at hlen'
+            subst this
+            simpa [writeOpt] using hbs.symm
+        · intro ht
+          exact htl ht bs hbs
+      obtain ⟨b, hb, hr, hne⟩ := read_write E cr s.kind v hv bs hrest
+      -- the writer sees the final attributes; they agree with the ones read so far where used
+      have hcong : writeSpec E.subw E.cfg s.kind cw v = writeSpec E.subw E.cfg s.kind cr v := by
+        apply writeSpec_congr
+        · intro hu
+          rcases henc with henc | henc
+          · rw [hu] at henc; cases henc
+          · rw [hcw]; exact frameCtx_enc (s :: ss) (v :: vs) cr henc
+        · intro hu
+          rcases haspi with haspi | haspi
+          · rw [hu] at haspi; cases haspi
+          · rw [hcw]; exact frameCtx_aspi (s :: ss) (v :: vs) cr haspi
+      refine ⟨b ++ bs, by simp [writeOpt, hcong, hb, hbs], ?_⟩
+      have hgo : (!(b ++ bs).isEmpty || handleNoData s.kind) = true := by
+        cases hh : handleNoData s.kind with
+        | true => simp
+        | false =>
+          have := hne hh
+          cases b with
+          | nil => exact absurd rfl this
+          | cons _ _ => simp
+      simp only [readOpt, hgo, ↓reduceIte, hr, hrs, normVals]
+
+/-! ### `_writeData` / `_readData` split the list into required and optional specs -/
+
+theorem writeReq_writeOpt (subw : Cfg → List Val → Except PyErr Bytes) (cfg : Cfg) (c : Ctx)
+    (req opt : List FieldSpec) :
+    ∀ (vals : List Val) (B : Bytes), req.length ≤ vals.length →
+      writeOpt subw cfg c (req ++ opt) vals = .ok B →
+      ∃ b bo, writeReq subw cfg c req vals = .ok (b, vals.drop req.length) ∧
+        writeOpt subw cfg c opt (vals.drop req.length) = .ok bo ∧ B = b ++ bo := by
+  induction req with
+  | nil =>
+    intro vals B _ h
+    exact ⟨[], B, by simp [writeReq], by simpa using h, by simp⟩
+  | cons s ss ih =>
+    intro vals B hlen h
+    cases vals with
+    | nil => simp at hlen
+    | cons v vs =>
+      simp only [List.cons_append, writeOpt] at h
+      cases hw : writeSpec subw cfg s.kind c v with
+      | error e => simp [hw] at h
+      | ok b1 =>
+        simp only [hw] at h
+        cases hw2 : writeOpt subw cfg c (ss ++ opt) vs with
+        | error e => simp [hw2] at h
+        | ok bs =>
+          simp only [hw2, Except.ok.injEq] at h
+          obtain ⟨b, bo, h1, h2, h3⟩ := ih vs bs (by simpa using hlen) hw2
+          refine ⟨b1 ++ b, bo, ?_, by simpa using h2, by rw [← h, h3]; simp⟩
+          simp [writeReq, hw, h1]
+
+theorem readReq_readOpt (sub : Hdr → Bytes → Except PyErr (List Val × Bytes)) (h : Hdr)
+    (req opt : List FieldSpec) :
+    ∀ (c : Ctx) (d : Bytes) (vs : List Val) (d' : Bytes), req.length ≤ vs.length →
+      readOpt sub h c (req ++ opt) d = .ok (vs, d') →
+      ∃ vs1 vs2 dm c1, readReq sub h c req d = .ok (vs1, dm, c1) ∧
+        readOpt sub h c1 opt dm = .ok (vs2, d') ∧ vs = vs1 ++ vs2 := by
+  induction req with
+  | nil =>
+    intro c d vs d' _ hr
+    exact ⟨[], vs, d, c, by simp [readReq], by simpa using hr, by simp⟩
+  | cons s ss ih =>
+    intro c d vs d' hlen hr
+    simp only [List.cons_append, readOpt] at hr
+    by_cases hgo : (!d.isEmpty || handleNoData s.kind) = true
+    · simp only [hgo, ↓reduceIte] at hr
+      cases hrs : readSpec sub h s.kind c d with
+      | error e => simp [hrs] at hr
+      | ok r =>
+        obtain ⟨v, d1⟩ := r
+        simp only [hrs] at hr
+        cases hro : readOpt sub h (ctxUpdate c s.name v) (ss ++ opt) d1 with
+        | error e => simp [hro] at hr
+        | ok r2 =>
+          obtain ⟨vs', d2⟩ := r2
+          simp only [hro, Except.ok.injEq, Prod.mk.injEq] at hr
+          obtain ⟨hvs, hd⟩ := hr
+          subst hvs; subst hd
+          obtain ⟨vs1, vs2, dm, c1, h1, h2, h3⟩ := ih _ d1 vs' d2 (by simpa using hlen) hro
+          exact ⟨v :: vs1, vs2, dm, c1, by simp [readReq, hgo, hrs, h1], h2, by simp [h3]⟩
+    · simp only [hgo] at hr
+      simp at hr
+      obtain ⟨hvs, _⟩ := hr
+      subst hvs
+      simp at hlen
+
+theorem length_normVals (specs : List FieldSpec) (vals : List Val) (h : vals.length ≤ specs.length) :
+    (normVals specs vals).length = vals.length := by
+  induction specs generalizing vals with
+  | nil => cases vals with
+    | nil => rfl
+    | cons _ _ => simp at h
+  | cons s ss ih =>
+    cases vals with
+    | nil => rfl
+    | cons v vs => simp [normVals, ih vs (by simpa using h)]
+
+/-- frame-level round trip (`Frame._writeData` then `Frame._readData`), proved by
+`readOpt_writeOpt` (induction over the spec list).  `vals'` is what is actually written:
+`vals` itself for a v2.4 configuration, the `_get_v23_frame` conversion of `vals` for v2.3. -/
+theorem readFrame_writeFrame (E : Env) (cls : FrameClass) (vals vals' : List Val)
+    (hpre : (if E.cfg.version = 3 then toV23 E.cfg.sep (cls.required ++ cls.optional) vals else .ok vals) = .ok vals')
+    (hstruct : structOK (cls.required ++ cls.optional) = true)
+    (hlen1 : cls.required.length ≤ vals'.length) (hlen2 : vals'.length ≤ (cls.required ++ cls.optional).length)
+    (hvalid : FieldsValid E (initCtx cls.required {}) (cls.required ++ cls.optional) vals')
+    (htails : TailsOK E (frameCtx (cls.required ++ cls.optional) vals' (initCtx cls.required {}))
+      (cls.required ++ cls.optional) vals')
+    (hcomp : ∀ hlt : vals'.length < (cls.required ++ cls.optional).length,
+      handleNoData ((cls.required ++ cls.optional)[vals'.length]).kind = false) :
+    ∃ b, writeFrame E.subw E.cfg cls vals = .ok b ∧
+      readFrame E.sub E.h cls b = .ok (normVals (cls.required ++ cls.optional) vals', []) := by
+  obtain ⟨B, hw, hr⟩ := readOpt_writeOpt E (cls.required ++ cls.optional) vals' (initCtx cls.required {}) _
+    hlen2 hstruct hvalid htails hcomp rfl
+  obtain ⟨b, bo, h1, h2, h3⟩ := writeReq_writeOpt E.subw E.cfg _ cls.required cls.optional vals' B hlen1 hw
+  obtain ⟨vs1, vs2, dm, c1, r1, r2, r3⟩ := readReq_readOpt E.sub E.h cls.required cls.optional _ B _ []
+    (by rw [length_normVals _ _ hlen2]; exact hlen1) hr
+  refine ⟨B, ?_, ?_⟩
+  · simp only [writeFrame, hpre, h1, h2, h3]
+  · simp only [readFrame, r1, r2, r3]
+
+/-- `_get_v23_frame` changes nothing when no separator is configured and every encoding is
+Latin-1 or UTF-16 -/
+def V23Stable : List FieldSpec → List Val → Prop
+  | s :: ss, v :: vs =>
+    (s.kind = .encoding → v = .int 0 ∨ v = .int 1) ∧ V23Stable ss vs
+  | _, _ => True
+
+theorem toV23_stable (specs : List FieldSpec) (vals : List Val) (hlen : vals.length ≤ specs.length)
+    (h : V23Stable specs vals) : toV23 none specs vals = .ok vals := by
+  induction specs generalizing vals with
+  | nil => cases vals with
+    | nil => rfl
+    | cons _ _ => simp at hlen
+  | cons s ss ih =>
+    cases vals with
+    | nil => rfl
+    | cons v vs =>
+      obtain ⟨h1, h2⟩ := h
+      have hv : validate23 none s.kind v = .ok v := by
+        cases hk : s.kind with
+        | encoding =>
+          cases v with
+          | int i => rcases h1 hk with hv | hv <;> (cases hv; simp [validate23])
+          | _ => rfl
+        | multi e =>
+          cases e with
+          | nil => cases v <;> rfl
+          | cons tk r =>
+            cases r with
+            | nil =>
+              cases v with
+              | list l => by_cases ht : tk = .timeStamp <;> simp [validate23, ht]
+              | _ => rfl
+            | cons _ _ => cases v <;> rfl
+        | _ => cases v <;> rfl
+      simp only [toV23, hv, ih vs (by simpa using hlen) h2]
+
+/-! ## input framing: `_fromData` with the unsynchronisation / data-length flags -/
+
+theorem fromDataBytes_plain (h : Hdr) (hu : h.unsynch = false) (d : Bytes) : fromDataBytes h 0 d = d := by
+  unfold fromDataBytes
+  split
+  · simp [hasFlag, FLAG24_COMPRESS, FLAG24_DATALEN, FLAG24_UNSYNCH, hu]
+  · rfl
+
+theorem fromDataBytes_unsynch (h : Hdr) (hv : h.version ≥ 4) (d : Bytes) :
+    fromDataBytes h FLAG24_UNSYNCH (unsynchEncode d) = d := by
+  have := Mutagen.C14.unsynch_roundtrip d
+  simp [fromDataBytes, hv, hasFlag, FLAG24_COMPRESS, FLAG24_DATALEN, FLAG24_UNSYNCH, this]
+
+theorem fromDataBytes_datalen (h : Hdr) (hv : h.version ≥ 4) (hu : h.unsynch = false) (l4 d : Bytes)
+    (hl : l4.length = 4) : fromDataBytes h FLAG24_DATALEN (l4 ++ d) = d := by
+  simp [fromDataBytes, hv, hasFlag, FLAG24_COMPRESS, FLAG24_DATALEN, FLAG24_UNSYNCH, hu, drop_app l4 d 4 hl]
+
+theorem fromDataBytes_unsynch_datalen (h : Hdr) (hv : h.version ≥ 4) (l4 d : Bytes) (hl : l4.length = 4) :
+    fromDataBytes h (FLAG24_UNSYNCH + FLAG24_DATALEN) (l4 ++ unsynchEncode d) = d := by
+  have := Mutagen.C14.unsynch_roundtrip d
+  simp [fromDataBytes, hv, hasFlag, FLAG24_COMPRESS, FLAG24_DATALEN, FLAG24_UNSYNCH, drop_app l4 _ 4 hl, this]
+
+theorem fromData_congr (sub : Hdr → Bytes → Except PyErr (List Val × Bytes)) (h : Hdr) (cls : FrameClass)
+    (hv : h.version ≥ 4) (f1 f2 : Nat) (d1 d2 : Bytes)
+    (he1 : hasFlag f1 FLAG24_ENCRYPT = false) (hc1 : hasFlag f1 FLAG24_COMPRESS = false)
+    (he2 : hasFlag f2 FLAG24_ENCRYPT = false) (hc2 : hasFlag f2 FLAG24_COMPRESS = false)
+    (hd : fromDataBytes h f1 d1 = fromDataBytes h f2 d2) :
+    fromData sub h cls f1 d1 = fromData sub h cls f2 d2 := by
+  have h3 : ¬ h.version = 3 := by omega
+  simp only [fromData, hv, ↓reduceIte, he1, hc1, he2, hc2, hd, h3, false_and, Bool.false_eq_true]
+
 end Mutagen.Id3
